@@ -56,7 +56,7 @@ def _run(tape, clock):
     save_raises = tape.draw(8) == 7
     ignore_forced = tape.draw(4) == 3
     V.set_flavour(tape)
-    spec = R.gen_service(tape, run, max_steps=10, threads=False)
+    spec = R.gen_service(tape, run, max_steps=10, threads=False, arg_mutating_inputs=True)
     R.fill_outcomes(tape, run, spec)
     spec.op.params = {'sampling_rate': samp[1], 'ignore_enforced_sampling': ignore_forced}
     if tape.draw(5) == 4:
